@@ -80,9 +80,12 @@ CHECKS.update({
             TB + "The statistical premise cannot be discharged by a proof assistant; it is measured on every run.", "6/C04"),
     "C05": ("proof", "Lean 4 theorem (repr → Python literal scanner round-trip for every string) + literal-focused correspondence",
             "C05_string_roundtrip: for every string and every printable classification, the text repr() emits is read back by Python's literal "
-            "scanner as exactly that string, consuming exactly that text (with Python's triple-quote corner stated explicitly). Numbers: the Dbl "
-            "model's decimal→double and repr are compared bit-for-bit; every literal position x adversarial content x confusable inputs is run on the real code.",
-            TB + "float repr / float() are modelled (shortest round-trip search) and validated, not proved; pydantic coercion mode is a probed flag.", "6/C05"),
+            "scanner as exactly that string, consuming exactly that text (with Python's triple-quote corner stated explicitly). C05_float_repr_reads_back / "
+            "C05_float_literal_reads_back: every finite binary64 value a DSL literal or weight can denote is printed by the model's repr (shortest-digit "
+            "search, proved to succeed within 17 digits; fixed and exponent notation) as a text that the model of Python's number scanner reads back as "
+            "that double. The Dbl model's decimal→double and repr are compared bit-for-bit with CPython; every literal position x adversarial content x "
+            "confusable inputs is run on the real code.",
+            TB + "That the model's repr / float() ARE CPython's is validated bit-for-bit, not proved; pydantic coercion mode is a probed flag.", "6/C05"),
     "C08": ("proof", "Lean 4 theorems over the regenerated lexer tables (order facts, trivia contributes no tokens) + metamorphic correspondence",
             "C08_trivia_prefix_invisible (any well-formed trivia sequence in front of any input is invisible to the lexer), C08_tokenStep (each of "
             "the 30 token kinds followed by a separator lexes as itself), C08_roundtrip and C08_trivia_invariant (two admissible renderings of the "
